@@ -31,6 +31,8 @@ def plan(tier, seed):
                 for depth in (1, 2, 3):
                     units.append({'kind': 'session', 'proto': proto, 'mutual': mutual, 'inter': depth - 1,
                                   'schedules': 4 if tier == 'quick' else 6, 'weight': 3})
+        for proto in ('tlcp', 'tls12', 'tls13'):
+            units.append({'kind': 'independent-peer', 'proto': proto, 'inter': rep % 3, 'reps': 6 if tier == 'quick' else 12, 'weight': 3})
     return units
 
 
@@ -320,5 +322,102 @@ def u_session(ctx, u):
     cli_ctx.free()
 
 
+def u_independent_peer(ctx, u):
+    """The library server against a client written from the standards in pure Python (vf/hostile13.py, vf/hostile_tlcp.py):
+    the handshake completes, the server's Finished is the value the standard defines for the independently derived keys,
+    and application data passes intact in both directions under those keys.  Two library endpoints that shared a wrong
+    derivation would agree with each other; they would not agree with this peer."""
+    import socket
+    import threading
+    from ..ref import sm2 as R
+    from .. import hostile13 as H13
+    from .. import hostile_tlcp as HT
+    rng = ctx.rng
+    pname = u['proto']
+    proto = T.PROTOS[pname]
+    creds = T.Creds(ctx, 'c08i-%d' % u['_i'], u.get('inter', 1))
+    srv_ctx, cli_ctx = T.pair_ctx(ctx, creds, proto, False)
+    base = T.run_handshake(ctx, srv_ctx, cli_ctx, seed=rng.randrange(1, 1 << 30), use_proxy=True)
+    ok = base['server'].ret == 1 and base['client'].ret == 1
+    ch = [r for i, d, r in base['proxy'].records if d == 'c>s' and r[0] == T.REC_HANDSHAKE and r[5] == 1]
+    T.close_pair(base)
+    if not ctx.check(ok and ch, 'handshake:honest-peers-failed:%s:server-auth' % pname, phase='baseline for the independent peer'):
+        return
+    for rep in range(u['reps']):
+        c_end, s_end = socket.socketpair()
+        srv = T.Endpoint(ctx, srv_ctx, s_end, 's', rng.randrange(1, 1 << 30), bool(rep & 1))
+        th = threading.Thread(target=srv.handshake)
+        th.start()
+        up = rng.randbytes(rng.choice([1, 15, 16, 17, 100, 1000, 4000]))
+        down = rng.randbytes(rng.choice([1, 15, 16, 17, 100, 1000, 4000]))
+        note, fin_ok, got_down = None, None, None
+        try:
+            ctx.begin(['independent-peer', pname, rep])
+            if pname == 'tls13':
+                cl = H13.Client(c_end, ch[0], rng.randrange(1, R.N - 1))
+                fin_ok = cl.start()
+                if fin_ok:
+                    cl.send_hs(cl.finished_msg())
+            else:
+                cl = HT.Client(c_end, ch[0], R.pub(creds.enc_priv), rng) if pname == 'tlcp' else HT.Client12(c_end, ch[0], rng)
+                if cl.start():
+                    cl.send_plain(cl.client_key_exchange())
+                    cl.change_cipher_spec()
+                    cl.finished()
+                    fin_ok = cl.read_server_finished()
+                else:
+                    note = '; '.join(cl.log)
+        except (OSError, ValueError) as e:
+            note = 'peer: %s' % e
+        th.join(20)
+        det = dict(proto=pname, rep=rep, note=note, peer_log=getattr(cl, 'log', None))
+        if not ctx.check(srv.ret == 1 and not th.is_alive(), 'independent-peer:library-server-did-not-complete:' + pname, server_ret=srv.ret, **det):
+            for sk in (c_end, s_end):
+                sk.close()
+            continue
+        ctx.check(bool(fin_ok), 'independent-peer:server-finished-differs-from-standard:' + pname, **det)
+        # application data, both directions, under the independently derived keys
+        res = {}
+
+        def server_side():
+            srv.thread_setup()
+            res['up'] = srv.recv(8192)
+            res['sent'] = srv.send(down)
+        t2 = threading.Thread(target=server_side)
+        t2.start()
+        try:
+            if pname == 'tls13':
+                cl.send_app_data(up)
+                got_down = cl.read_app_data()
+            else:
+                cl.app_data(up)
+                got_down = cl.read_app_data()
+        except OSError as e:
+            note = 'peer: %s' % e
+        t2.join(10)
+        if t2.is_alive():
+            try:
+                c_end.shutdown(socket.SHUT_RDWR)
+            except OSError:
+                pass
+            t2.join(5)
+        r = res.get('up')
+        ctx.check(bool(r) and r[0] == 1 and r[1] == up, 'independent-peer:client-data-not-delivered-intact:' + pname, sent_len=len(up),
+                  got=repr(r)[:60], **det)
+        ctx.check(got_down == down, 'independent-peer:server-data-does-not-unprotect-under-standard-keys:' + pname, sent_len=len(down),
+                  got_len=None if got_down is None else len(got_down), **det)
+        ctx.nontrivial('independent-peer', pname, rep, len(up), len(down))
+        ctx.stat('independent_peer_sessions')
+        for sk in (c_end, s_end):
+            try:
+                sk.close()
+            except OSError:
+                pass
+        srv.conn.free()
+    ctx.sample({'kind': 'independent-peer', 'proto': pname, 'sessions': u['reps']})
+    srv_ctx.free()
+    cli_ctx.free()
+
+
 def run_unit(ctx, u):
-    u_session(ctx, u)
+    {'session': u_session, 'independent-peer': u_independent_peer}[u['kind']](ctx, u)
